@@ -21,7 +21,8 @@ static inline cstring *cstring__lit(const char *p) { g_lit.len = 5; g_lit.id = _
     if (i == s->wi) return &s->wv; T fresh; __CPROVER_assume(SEQ_INV_##N(&fresh)); P##N##__cur = fresh; return &P##N##__cur; } \
   static inline void P##N##__push_back(struct P##N *s, T *v) { if (g_exc) return; \
     __CPROVER_assert(SEQ_INV_##N(v), "stored element satisfies the sequence's element invariant"); if (s->n == s->wi) s->wv = *v; s->n++; } \
-  static inline void P##N##__clear(struct P##N *s) { s->n = 0; }
+  static inline void P##N##__clear(struct P##N *s) { s->n = 0; } \
+  static inline void P##N##__assign(struct P##N *d, struct P##N *s) { *d = *s; }
 #define DECL_SEQ(N, T) DECL_SEQ_(seq_, N, T) \
   static inline struct seq_##N seq_##N##__empty(void) { struct seq_##N s; s.n = 0; return s; }
 /* A7 BlockTable<T> as seen by CdnsBlock: a sequence in index order (its own implementation: bt.* units) */
